@@ -136,35 +136,10 @@ Fixpoint values2 (fuel:nat) (ty:vtype) (p:text) : list dvalue :=
            end
   end.
 
-Definition load2_line (T:tables) (st:lstate) (line0:text) : lstate :=
-  let line := cut0 line0 in
-  if (match line with c :: _ => (c =? 35) || (c =? 42) | [] => false end) then st
-  else if starts s_LOCAL_TABLEB line || starts s_MASTER_TABLEB line
-       || starts s_LOCAL_TABLED line || starts s_MASTER_TABLED line then st
-  else if starts s_BUFR_EDITION line then
-    match strtok dl_sp_eq_tab_nl (skipn 12 line) with
-    | Some (tok, _) => mkL (atoi tok) (l_seq st)
-    | None => st
-    end
-  else
-    match strtok dl_sp_tab_nl_comma_eq line with
-    | None => st
-    | Some (tok, r) =>
-      let d := atoi tok in
-      let ty := vtype_of T d in
-      let vals :=
-        match strtok dl_sp_tab_nl_comma_eq r with
-        | Some (k, r2) => if text_eqb k s_VALUE then values2 (S (length r2)) ty r2 else []
-        | None => []
-        end in
-      mkL (l_ed st) (mkItem d vals :: l_seq st)
-    end.
-Definition load2_lines (T:tables) (lines:list text) : lstate := fold_left (load2_line T) lines (mkL 4 []).
-Definition parse2_lines (T:tables) (lines:list text) : template :=
-  let st := load2_lines T lines in mkTmpl (l_ed st) (rev (l_seq st)).
-Definition load2 (fuel:nat) (T:tables) (lines:list text) : result template :=
-  let t := parse2_lines T lines in
-  if finalize_ok fuel T (descs t) then Ok t else Err Reject.
+Definition fixed_values (ty:vtype) (r2:text) : list dvalue := values2 (S (length r2)) ty r2.
+Definition load2_line : tables -> lstate -> text -> lstate := load_line_gen fixed_values.
+Definition parse2_lines : tables -> list text -> template := parse_lines_gen fixed_values.
+Definition load2 : nat -> tables -> list text -> result template := load_gen fixed_values.
 Definition load2_text (fuel:nat) (T:tables) (s:text) : result template := load2 fuel T (split_nl s []).
 
 (* ------------------------------------------------------------------ predicates of the statements *)
